@@ -21,6 +21,7 @@ JOBS = [
     ("py2v_data.py", "Gen/DataGen.v"),
     ("py2v_entry.py", "Gen/EntryGen.v"),
     ("py2v_prior.py", "Gen/PriorGen.v"),
+    ("py2v_write.py", "Gen/WriteGen.v"),
 ]
 if __name__ == "__main__":
     repo, coq = sys.argv[1], sys.argv[2]
